@@ -38,6 +38,12 @@ def gen(ctx):
     for _ in range(ctx.n(300, 7000)):
         spec = M.random_spec(rng, NAMES)
         dm = M.in_domain_dm(rng, spec, max_m=ctx.n(9, 14), max_n=6, ties=rng.choice([0.0, 0.2, 0.5]), dups=0.1)
+        if rng.random() < 0.2:
+            # the same problem in very small / very large units (exact power of two): "up to rounding" is relative to the scale
+            k = 2.0 ** rng.choice([-40, -30, 30, 40])
+            dm["matrix"] = [[x * k for x in row] for row in dm["matrix"]]
+            dm["int_matrix"] = False
+            dm["units"] = k
         cases.append({"kind": "score", "spec": spec, "dm": dm})
     # malformed stream: refusal clause
     for _ in range(ctx.n(100, 1500)):
@@ -58,6 +64,7 @@ def observe(case):
     with M.quiet():
         dm = G.mkdm(case["dm"])
         dec = M.build(case["spec"])
+        M.warmup(dec, dm, case["dm"], case["spec"])
         try:
             res = dec.evaluate(dm)
         except Exception as e:
@@ -145,7 +152,7 @@ def exact(case):
     def fmf():
         return [sum((1 if o[j] == 1 else -1) * D(A[i][j] * w[j]).ln() for j in range(n)) for i in range(m)]
 
-    lin_scale = float(max(1, wsum * absmax))
+    lin_scale = float(wsum * absmax) or 1.0  # relative to the problem's own scale (no absolute floor)
     if name == "WSM":
         out["score"] = ([sum(A[i][j] * w[j] for j in range(n)) for i in range(m)], lin_scale)
     elif name == "RatioMOORA":
@@ -153,7 +160,7 @@ def exact(case):
     elif name == "RefPointMOORA":
         s, ref = refpoint()
         out["score"] = (s, lin_scale)
-        out["reference_point"] = (ref, float(max(1, absmax)))
+        out["reference_point"] = (ref, float(absmax) or 1.0)
     elif name == "WPM":
         sc = [sum(D(w[j]) * D(A[i][j]).log10() for j in range(n)) for i in range(m)]
         out["score"] = (sc, float(max(1, max(abs(D(w[j]) * D(A[i][j]).log10()) for i in range(m) for j in range(n)) * n)))
@@ -164,7 +171,7 @@ def exact(case):
         out["ratio_score"] = (ratio(), lin_scale)
         s, ref = refpoint()
         out["refpoint_score"] = (s, lin_scale)
-        out["reference_point"] = (ref, float(max(1, absmax)))
+        out["reference_point"] = (ref, float(absmax) or 1.0)
         out["fmf_score"] = (fmf(), float(max(1, max(abs(D(A[i][j] * w[j]).ln()) for i in range(m) for j in range(n)) * n)))
     elif name == "TOPSIS":
         metric = case["spec"].get("metric", "euclidean")
@@ -194,8 +201,8 @@ def exact(case):
             ratio_c = n * vmax / float(tot if metric != "sqeuclidean" else D(tot).sqrt())
             cond = max(cond, ratio_c ** (2 if metric == "sqeuclidean" else 1))
         out["similarity"] = (sim, cond)
-        out["ideal"] = (ideal, max(1.0, vmax))
-        out["anti_ideal"] = (anti, max(1.0, vmax))
+        out["ideal"] = (ideal, vmax or 1.0)
+        out["anti_ideal"] = (anti, vmax or 1.0)
     return out
 
 
